@@ -73,7 +73,7 @@ PROPS = {
         "drivers": [drv("bits", "debug"), drv("bits", "release", tiers=T)],
     },
     "C09": {
-        "mc": L0_QUICK + L0_THOROUGH,
+        "mc": L0_QUICK + L0_THOROUGH + [algo("SmallAlgos.tla", "SmallAlgos_q.cfg"), algo("SmallAlgos.tla", "SmallAlgos_cal_signed_no_sign_test.cfg", expect="violation")],
         "drivers": [drv("bytes", "debug"), drv("bytes", "release", tiers=T)],
     },
     "C06": {
@@ -102,11 +102,11 @@ PROPS = {
         "drivers": [drv("roots", "debug"), drv("roots", "debug", features=["rand", "serde"]), drv("roots", "release", tiers=T)],
     },
     "C12": {
-        "mc": L0_QUICK + L0_THOROUGH,
+        "mc": L0_QUICK + L0_THOROUGH + [algo("SmallAlgos.tla", "SmallAlgos_q.cfg"), algo("SmallAlgos.tla", "SmallAlgos_cal_pow_no_exit.cfg", expect="violation")],
         "drivers": [drv("pow", "debug"), drv("pow", "release", tiers=T)],
     },
     "C13": {
-        "mc": L0_QUICK + L0_THOROUGH,
+        "mc": L0_QUICK + L0_THOROUGH + [algo("SmallAlgos.tla", "SmallAlgos_q.cfg"), algo("SmallAlgos.tla", "SmallAlgos_cal_gcd_max_shift.cfg", expect="violation")],
         "drivers": [drv("gcd", "debug"), drv("gcd", "release", tiers=T)],
     },
     "C19": {
@@ -114,11 +114,11 @@ PROPS = {
         "drivers": [drv("sign", "debug"), drv("sign", "release", tiers=T)],
     },
     "C17": {
-        "mc": L0_QUICK + L0_THOROUGH,
+        "mc": L0_QUICK + L0_THOROUGH + [algo("SmallAlgos.tla", "SmallAlgos_q.cfg"), algo("SmallAlgos.tla", "SmallAlgos_cal_ser_always_hi.cfg", expect="violation")],
         "drivers": [drv("serde", "debug"), drv("serde", "release", tiers=T)],
     },
     "C18": {
-        "mc": L0_QUICK + L0_THOROUGH,
+        "mc": L0_QUICK + L0_THOROUGH + [algo("SmallAlgos.tla", "SmallAlgos_q.cfg"), algo("SmallAlgos.tla", "SmallAlgos_cal_ser_always_hi.cfg", expect="violation")],
         "drivers": [drv("rand", "debug"), drv("rand", "release", tiers=T)],
     },
     "C04": {
